@@ -1947,7 +1947,7 @@ fn eval_let(
             Ok(ty) => ty,
             Err(e) => {
                 return Err((
-                    RestoreValues(vec![]),
+                    RestoreValues(vec![expr_value]),
                     EvalError::Exception(ExceptionInfo {
                         position: hint.position.clone(),
                         message: ErrorMessage(vec![msgtext!("Unbound type in hint: "), Code(e)]),
